@@ -562,7 +562,11 @@ def _config_lines(e, style, rng):
     """Property lines of a config entry (without indentation); the type line comes first."""
     first = []
     rest = []
-    if e["prompt"] and not style.get("separate_prompt"):
+    if e["prompt"] and style.get("two_prompts"):
+        # two prompts in one definition: the later one replaces the earlier one, text and condition
+        first.append('%s "old %s title" if n' % (e["type"], e["name"]))
+        rest.append('prompt "%s"%s' % (_title(e["name"], style, rng), cond_suffix(e["prompt"][0])))
+    elif e["prompt"] and not style.get("separate_prompt"):
         first.append('%s "%s"%s' % (e["type"], _title(e["name"], style, rng), cond_suffix(e["prompt"][0])))
     else:
         first.append(e["type"])
@@ -758,6 +762,7 @@ STYLES = {
     "rsource": {"rsource": True},
     "split-and": {"split_and": True, "shuffle": True},
     "min-parens": {"min_parens": True},
+    "two-prompts": {"two_prompts": True},
     "odd-text": {"odd_text": True, "help": True},
     "macros": {"macros": True},
     "macros+rsource": {"macros": True, "rsource": True, "comments": True},
